@@ -18,9 +18,9 @@ import common as C
 
 PID = "C01"
 DRIVER = [("C01", "TfPwaV.Model.Swap", "Swap.handle"), ("C01amp", "TfPwaV.Gen.AmpF", "AmpF.handle"), ("C01g", "TfPwaV.Gen.LorentzSLF", "LorentzSLF.handle"), ("C01h", "TfPwaV.Gen.AngleF", "AngleF.handle")]
-LEAN_TARGETS = ["TfPwaV.Props.C01", "TfPwaV.Props.C01b", "TfPwaV.Props.C01d", "TfPwaV.Props.C01e", "TfPwaV.Props.C01f", "TfPwaV.Props.C01g", "TfPwaV.Props.C01h", "TfPwaV.Props.C01i", "TfPwaV.Props.C01j", "TfPwaV.Gen.AmpF", "TfPwaV.Gen.LorentzSLF", "TfPwaV.Gen.AngleF", "TfPwaV.Model.Swap"]
-PROP_MODULES = ["TfPwaV.Props.C01", "TfPwaV.Props.C01b", "TfPwaV.Props.C01d", "TfPwaV.Props.C01e", "TfPwaV.Props.C01f", "TfPwaV.Props.C01g", "TfPwaV.Props.C01h", "TfPwaV.Props.C01i", "TfPwaV.Props.C01j"]
-ALL_MODULES = ["TfPwaV.Props.C01", "TfPwaV.Props.C01b", "TfPwaV.Props.C01d", "TfPwaV.Props.C01e", "TfPwaV.Props.C01f", "TfPwaV.Props.C01g", "TfPwaV.Props.C01h", "TfPwaV.Props.C01i", "TfPwaV.Props.C01j", "TfPwaV.Proofs.AxesIndCPair", "TfPwaV.Proofs.AxesIndCPhase", "TfPwaV.Proofs.AxesIndCGauge", "TfPwaV.Props.C13", "TfPwaV.Model.LS", "TfPwaV.Proofs.AxesInd", "TfPwaV.Proofs.AxesIndVertex", "TfPwaV.Proofs.AxesIndB", "TfPwaV.Proofs.AxesIndBRoute", "TfPwaV.Proofs.AxesIndBSteps", "TfPwaV.Proofs.AxesIndBD", "TfPwaV.Proofs.AxesIndBGauge", "TfPwaV.Proofs.AxesIndBMkD", "TfPwaV.Props.C02e", "TfPwaV.Proofs.RouteRest", "TfPwaV.Proofs.RouteRestTree", "TfPwaV.Proofs.LorentzSL",
+LEAN_TARGETS = ["TfPwaV.Props.C01", "TfPwaV.Props.C01b", "TfPwaV.Props.C01d", "TfPwaV.Props.C01e", "TfPwaV.Props.C01f", "TfPwaV.Props.C01g", "TfPwaV.Props.C01h", "TfPwaV.Props.C01i", "TfPwaV.Props.C01j", "TfPwaV.Props.C01k", "TfPwaV.Gen.AmpF", "TfPwaV.Gen.LorentzSLF", "TfPwaV.Gen.AngleF", "TfPwaV.Model.Swap"]
+PROP_MODULES = ["TfPwaV.Props.C01", "TfPwaV.Props.C01b", "TfPwaV.Props.C01d", "TfPwaV.Props.C01e", "TfPwaV.Props.C01f", "TfPwaV.Props.C01g", "TfPwaV.Props.C01h", "TfPwaV.Props.C01i", "TfPwaV.Props.C01j", "TfPwaV.Props.C01k"]
+ALL_MODULES = ["TfPwaV.Props.C01", "TfPwaV.Props.C01b", "TfPwaV.Props.C01d", "TfPwaV.Props.C01e", "TfPwaV.Props.C01f", "TfPwaV.Props.C01g", "TfPwaV.Props.C01h", "TfPwaV.Props.C01i", "TfPwaV.Props.C01j", "TfPwaV.Props.C01k", "TfPwaV.Proofs.AxesIndCPair", "TfPwaV.Proofs.AxesIndCPhase", "TfPwaV.Proofs.AxesIndCGauge", "TfPwaV.Props.C13", "TfPwaV.Model.LS", "TfPwaV.Proofs.AxesInd", "TfPwaV.Proofs.AxesIndVertex", "TfPwaV.Proofs.AxesIndB", "TfPwaV.Proofs.AxesIndBRoute", "TfPwaV.Proofs.AxesIndBSteps", "TfPwaV.Proofs.AxesIndBD", "TfPwaV.Proofs.AxesIndBGauge", "TfPwaV.Proofs.AxesIndBMkD", "TfPwaV.Props.C02e", "TfPwaV.Proofs.RouteRest", "TfPwaV.Proofs.RouteRestTree", "TfPwaV.Proofs.LorentzSL",
                "TfPwaV.Props.C02", "TfPwaV.Props.C02b", "TfPwaV.Props.C02c", "TfPwaV.Props.C02d", "TfPwaV.Proofs.SL2C", "TfPwaV.Proofs.Align", "TfPwaV.Proofs.AlignD", "TfPwaV.Model.Align",
                "TfPwaV.Proofs.CascadeAngle", "TfPwaV.Props.C11c", "TfPwaV.Proofs.Amp", "TfPwaV.Proofs.AmpMix", "TfPwaV.Proofs.AmpSwap", "TfPwaV.Proofs.Spinless", "TfPwaV.Proofs.LineShape", "TfPwaV.Proofs.FrameRot", "TfPwaV.Proofs.CascadeTree", "TfPwaV.Proofs.Cascade", "TfPwaV.Proofs.Angle",
                "TfPwaV.Props.C12b", "TfPwaV.Props.C12d", "TfPwaV.Proofs.DHom", "TfPwaV.Proofs.ZHom", "TfPwaV.Proofs.SU2", "TfPwaV.Model.Swap", "TfPwaV.Proofs.FrameAlg", "TfPwaV.Proofs.UnitaryMix", "TfPwaV.Props.C11", "TfPwaV.Props.C12",
@@ -32,6 +32,7 @@ ASSUMPTIONS = [
     "tolerances: density unchanged to 1e-8 relative (floor 1e-3 x median density of the batch); events on which an alignment angle beta of a final particle with spin is within 1e-6 of 0 or pi are compared with 1e-5 (SU2M.get_euler_angle takes acos of cos(beta): absolute noise sqrt(eps) ~ 1.5e-8 in beta there, measured up to 5e-8 in the density); masses / |q|^2 to 1e-9 relative, cos(beta) to 1e-9 absolute",
     "transformations are applied by the harness' own numpy implementation of rotations and boosts (independent of tf_pwa.angle); the parent is unpolarised (all helicities of the top particle summed; no `spins` restriction on it)",
     "d-function parity symmetry and unitarity are theorems about the exact table model TfPwaV.Wigner, which C12 compares entry by entry with tf_pwa.dfun.small_d_weight",
+    "Props/C01k.lean: theorems about the R instance of templates/RouteRest.lean.in (stepTree = the (alpha, beta, omega) record of cal_helicity_angle) and templates/Cascade.lean.in; hypotheses on momenta of the final theorem axes_independent_event_guards_partial = Guards at both choices of base axes, total momentum massive and on the code's boost branches, |vect r| >= 1e-14 for a decaying daughter of the top particle (back-to-back daughters are derived from momentum conservation in the input frame); hR (alignment elements in SU(2)) and the id <-> decay-path tables are hypotheses of axes_independent_cascade_partial and are discharged in axes_independent_event_partial",
 ]
 
 TOL = 1e-8
@@ -742,7 +743,7 @@ def replay(ctx, payload):
 
 
 MANIFEST = {
-    "text": "Lean theorems (all finite helicity index sets, all complex chain tensors, all real angles): mixing the parent and final-state helicity indices of EVERY chain with the same unitary matrices leaves the helicity-summed density unchanged and it is non-negative; the code's conjugated D-matrix exp(i m alpha) d^j_{mn}(beta) exp(i n gamma) (dfun.D_matrix_conj) built from the exact small-d table model is a unitary matrix for every 2j <= 8 and all real angles, hence a common rotation acting by D^J on the parent index leaves the density unchanged (density_rot_invariant); every invariant mass of every subsystem and every break-up momentum is unchanged by a common boost (regular branch) or rotation/reflection; d^j_{-m,-n} = (-1)^{m-n} d^j_{mn} for 2j <= 8 (kernel-checked polynomial identity, all real beta); for a three-body decay in the parent rest frame spatial inversion equals the rotation by pi about the decay-plane normal; the identical-particle sum over a finite group with a sign character is an eigenvector of every exchange so its helicity-summed square is exchange invariant; the repaired get_swap_factor is the permutation sign for up to four identical fermions, the unrepaired one is refuted on a 3-cycle. On the Lean model of cal_chain_boost/cal_helicity_angle (every binary decay tree, regular branch of cross_unit) a common rotation leaves every mass and every angle below the top vertex unchanged, and every angle when the base axes co-rotate; with fixed laboratory axes the first D-matrix of every chain is left-multiplied by one common D^J(R) whenever the top-vertex rotations compose in SU(2) (D_hom_su2), which gives invariance of the density from two named hypotheses (density_rot_fixed_axes_partial). Boosts (Props/C01g.lean): for EVERY element A of SL(2,C) acting as the common Lorentz transformation (proved orthochronous), every binary decay tree and all final momenta with a massive total momentum on the code's own boost branch (|beta|^2 > 1e-14 or exactly at rest, before and after): LorentzVector.rest_vector(P, .) is the SL(2,C) element restM P = r^-1 Boost_z(omega(P)) r built from the code's SU2M matrices (rest_vector_is_restM); the parent-rest-frame momenta computed from the transformed event are R times those of the event for ONE proper rotation R, the image of the SU(2) element W = restM(LP) A restM(P)^-1 (wigner_rotation, wigner_rotation_at_rest); the whole tree of nested rest-frame momenta of cal_chain_boost is rotated by R (rest_frames_rotate); every mass (lorentz_invariants_sl2c: any subsystem, no guard), every polar angle below the top vertex, every azimuth two or more levels below the top and every rapidity are unchanged for arbitrary base axes before and after (below_top_invariant_boost, rapidities_boost_invariant); the top-vertex angles are the angles of R n (top_vertex_boost) and the complete angle tree of the transformed event with base axes (z', x') equals that of the event itself with base axes (R^-1 z', R^-1 x') (boost_is_axes_change); hence any function of the per-chain data of cal_angle (angle trees, masses, rapidities) that does not depend on the base axes of a fixed event (named hypothesis AxesIndependent) is invariant under every Lorentz transformation (density_boost_invariant_partial in C01g; the older C01.density_boost_invariant_partial keeps the abstract unitary-mixing form). What is still not proved is AxesIndependent for the real density (Euler-angle composition at the top vertex and the induced common rotation of the alignment elements - no boost is left in it); it and the full statement are validated on the implementation: density finite, >= 0 and unchanged (1e-8) under per-event random rotations, boosts up to beta = 0.99, axis-aligned and tiny boosts, rotation-boost-rotation, spatial inversion (3-body / parity-conserving), identical-particle exchange, over hand-designed and seeded random decay cards built by ConfigLoader(dict). Amplitude tensor (Props/C01d, about the real-number instance of the executable model templates/Amp.lean.in of amp/core.py, whose Float instance is compared with the real DecayChain.get_amp / DecayGroup.get_amp / DecayGroup.get_amp3 tensors per helicity component and with sum_amp on every run, including cards with identical fermions / identical vector bosons (id_swap terms), a charge-conjugate pair (cp_swap term) and charge -1 events with allow_cc): for every chain (any depth, any spins, any couplings and line-shape values) and all top-vertex angles the model amplitude equals sum_mu D^{J*}_{lambda_A mu}(alpha,beta,gamma) T[mu, finals] with D the unitary matrix DConj of the exact small-d tables and a remainder T independent of lambda_A and of the top angles (amp_is_chain_tensor); for every list of chains, if the top-vertex D-matrix of every chain is left-multiplied by one common unitary (D^J(R) whenever the top-vertex rotations compose with R in SU(2); composed angles always exist) the helicity-summed density of the model is unchanged (model_density_top_mix, model_density_top_unitary, model_density_top_rot_invariant; 2j <= 8 for the top particle); for every list of chains, if for every final particle p of a list M the alignment D-function of EVERY chain is right-multiplied by one common unitary V_p and the other alignment D-functions are unchanged, the density of the model is unchanged (model_density_final_mix: no bound on the spins, final index lists = full helicity ranges, every chain aligned exactly once for p), together with one common unitary on the top index (model_density_mix_all), and with hypotheses about ANGLES: one rotation composed in SU(2) onto the top angles of every chain from the left and one rotation per final particle composed onto its alignment angles in every chain from the right, all spins 2j <= 8 (model_density_rot_invariant, Props/C01e: the full statement; composed angles always exist); identical particles (Props/C01f): the model of get_amp2 on the exchanged event is epsilon times the model of get_amp2 on the event with the two helicity indices transposed (amp2_exchange_covariant), hence the symmetrised model density sum_amp is the same on the event and on the exchanged event for every list of chains, epsilon = +-1, every helicity list of the pair and arbitrary other finals (model_exchange_invariant; the nested helicity sums are re-indexed by sumOverR_swap); the chain amplitude is linear in `total` and in the helicity couplings of the top vertex, the helicity coupling is sum_ls g_ls bf_ls cg[ls][lambda_b][lambda_c] (linear in g_ls), the group amplitude is the sum over chains, and the model density is >= 0. Base axes (Props/C01h.lean, model = templates/Cascade.lean.in + Angle.lean.in + the SU2M matrices): for ONE event (the output of cal_chain_boost for every binary decay tree, all momenta) and ANY two admissible choices of base axes (z, x), (z', x') (arbitrary vectors passing the code's cross_unit guards) whose orthonormal top frames are related by an SU(2) element U (FrameChange: coords' = lor U coords): for BOTH daughters of the top vertex the passive vertex rotations r = Rotation_y(beta) Rotation_z(alpha) built from the angles angle_zx_z_getx extracts (with the code's alpha range shifts) satisfy r' U = Rotation_z(gamma) r EXACTLY in SU(2) with one real gamma per daughter (top_angles_compose; from su2_fix_z: the SU(2) stabiliser of a momentum along z is {Rotation_z}); in active form Rz(alpha')Ry(beta')Rz(0) = mirror(U) Rz(alpha)Ry(beta)Rz(gamma) with the SAME mirror(U) for every chain (top_angles_compose_active), hence for 2j <= 8 the top D-function of every chain is D(alpha',beta',0) = D(euler(mirror U)) D(alpha,beta,0) diag(exp(i l gamma)) (top_D_compose, via D_hom_su2 and euler_roundtrip); the complete angle tree below the top vertex computed with (z', x') differs from the one computed with (z, x) ONLY by a lowering of the two azimuths of the daughter's own vertex by that same gamma (mod 2 pi): all masses, all polar angles, everything two or more levels down literally equal (below_top_azimuth_shift / AzShift, hypotheses = the code's guards only); density_axes_independent_partial / density_axes_independent_model_partial: C01b.density_rot_fixed_axes_partial with its link hcomp DISCHARGED for the angles of the model (any number of chains, parent spin 2j <= 8), remaining named link hB (the remainder of chain k changes by the phase exp(-i l gamma_k) up to a common unitary on the final helicities). Props/C01i.lean: for ALL pairs of right-handed orthonormal frames there is U in SU(2) with FrameChange U F F' (frame_change_exists; frame_is_su2: the coordinates along any frame are the Lorentz map of an element Rotation_z Rotation_y Rotation_z), so for ALL base axes passing the code's two cross_unit guards AxesPair holds for some U (axes_pair_exists) and the statements above hold with hypotheses on the guards only and ONE U for all chains and events sharing the axes (top_angles_compose_any_axes, top_D_compose_any_axes, below_top_azimuth_shift_any_axes, density_axes_independent_any_axes_partial: only hB left); for all spins 2j <= 8 and all angles the D-matrix depends on the Euler angles only through the SU(2) element (DConj_zero, DConj_of_element), a vertex whose azimuth ELEMENT is Rotation_z(a) Rotation_z(-gamma) has row m of its D-function multiplied by exp(-i m gamma) and on the other sheet of the double cover by (-1)^(2j) exp(-i m gamma) (vertex_phase_element, vertex_phase_other_sheet; mkD_vertex_phase, mkD_top_gamma on the executable get_D_matrix_lambda model incl. padding zeros), and for every helicity configuration at the top vertex the column phase of the top D-function times the row phases of the two daughters' D-functions is one (top_and_vertex_phases_cancel); D_matrix_conj is a unitary representation of SU(2) ELEMENTS for 2j <= 8 (D_is_representation); for every event, every decay tree of any depth and every decay path the route matrix b_matrix[f] r_matrix[f] of the model of cal_helicity_angle satisfies M' U = W M with W = Rotation_z(gamma) (direct daughter of the top, gamma of its vertex equation) or W = +-1 (deeper) (route_axes_change, RouteW), so the alignment element becomes W_ref R W_k^-1 (alignment_element_change) and its D-function changes by codeD(W_k^-1) on the row and codeD(W_ref) on the column index (aligned_D_axes_change, alignment_axes_change_model, row_factor_of_routeW); assembly on the executable amplitude model for ANY list of chains (any topology / depth, reference chains included): one unitary on the top rows, a column factor on the top D-function, row factors on the lower vertices, row and column factors on the alignment D-functions whose product is ONE unit-modulus number Xi(ext) common to all chains on every helicity configuration the einsum visits (hcancel) leave the density sum_amp unchanged (model_density_axes_independent_ext_partial / _partial / _stored_partial), also with hypotheses on SU(2) elements only and D-functions = mkD at the primed angles, 2j <= 8 (model_density_axes_independent_elements_ext_partial / _elements_partial; vertex_element_of_shift). Props/C01j.lean (builder C01J) DISCHARGES hcancel: (a) on the model of cal_helicity_angle, at EVERY vertex whose daughters are back to back (momentum conservation in the mother's rest frame) the stored angles of outs[1] are (alpha_1 - pi, pi - beta_1) as REAL numbers, not mod 2 pi - the role of the range-shift biases -pi / -2pi (vertex_second_daughter_exact, top_second_daughter_exact; hypotheses = the code's guards) - hence for ALL gamma_1, gamma_2 solving the two vertex equations of the top vertex Rotation_z(gamma_2) = Rotation_z(-gamma_1) and Rotation_z(gamma_1) Rotation_z(gamma_2) = 1 EXACTLY in SU(2), no sign (top_gammas_opposite), and at a lower vertex both daughters' azimuth elements are lowered on the SAME sheet, which is the sign +-1 of the route matrices of ALL final particles below it (sheet_exists, second_daughter_same_sheet, lower_vertex_sheet, routes_carry_vertex_sheet: M' U = (signM e) M with e the sheet of the vertex's own D-function - route_axes_change with the sign identified); (b) CTree.spinOK (decidable: 2j_core = 2j_b + 2j_c mod 2 at every vertex of a decay tree with ids and doubled spins), spin_sign_rule / fermion_sign_rule: (-1)^(2j_R) = product of (-1)^(2j_f) over the finals below R for EVERY tree (structural induction), loader_enforces_spinOK: a vertex with 2(j_a+j_b+j_c) odd has C13.lsList = [] (all parities / p_break / C settings, from ls_mem_iff); (c) chain_phases_cancel = hcancel PROVED for every AmpR.Chain whose index structure is that of a decay tree of ANY depth (ChainOfTree: lower vertices <-> decaying particles, alignment D-functions <-> aligned finals, contracted indices; mkChain builds such a chain from a tree, mkChain_shape): column phase of the top vertex x row phases of all lower vertices x row and column phases of all alignment D-functions = product over ALL final particles f of exp(i ext_f phi_f / 2) with Rotation_z(phi_f) the reference element of f - the reference chain's own vertex phase IS the other chains' alignment column phase; (d) model_density_axes_independent_tree_partial: the density AmpR.densityG of ANY list of such chains (reference chains included, 2j <= 8, D-functions = AmpR.mkD at the primed angles) equals the density at the first axes with NO hcancel hypothesis - the hypotheses left are relations between SU(2) ELEMENTS (vertex equation, Rotation_z(gamma_2) = Rotation_z(-gamma_1), SideOKE: -gamma on the side's sheet for the daughter's own vertex / unit below / -gamma for an aligned direct daughter / the sheet sign for deeper finals, href: own element = reference element in the reference chain), each of which is a theorem of C01h/C01i/C01j about the model of cal_helicity_angle. Two defects of the STATEMENT of hcancel in C01i (unsatisfiable for real chains, not wrong) are repaired: it was asked for configurations with |lambda_b - lambda_c| > J (padding zero of Dfun_delta_v2; colPhaseX continues the phase there) and for configurations h differing from the external helicities on the reference chain's own finals (AmpR.densityG_gauge_ext2 carries h = ext off the contracted indices). The remaining named gap is bookkeeping, not mathematics: the walk that instantiates the per-id angles (Theta, theta_a, phi) and the trees of ALL chains of a DecayGroup from the angle trees CascadeR.helicityAngle / stepTree simultaneously, and hence density_boost_invariant for the real pipeline (C01g.boost_is_axes_change reduces the boost clause to this).",
-    "note": "Executable Lean model of the amplitude tensor: templates/Amp.lean.in (general binary chains and spins; CG matrix, barrier factors, helicity couplings, D_matrix_conj + Dfun_delta_v2 gather, BWR/BW/one propagators, alignment D-functions, einsum over inner helicities, sum over chains, helicity-summed density; default decay options; identical-particle and cp terms, allow_cc), fed with the masses, |q|2, ang and aligned_angle of the real data dictionary and the parameter values of the real model objects (harness/c01_amp.py: 6 decay cards, spins 0..2, parity conserving and violating vertices, 2-3 interfering chains of different topology, 3- and 4-body, BWR/BW/one; agreement 1e-15, tolerance 1e-9 of the largest component). get_amp2 / get_amp3 / the allow_cc branch are in the model (groupAmp2, groupAmp3, density3, mkHrev) and compared on 4 more cards (harness/c01_amp.py correspond_amp3; exchanges of pairs only). Proved on the model since the last revision: unitary mixing of the FINAL-state indices through the alignment D-functions (Props/C01e; the reference chain of a particle, which has no alignment D-function, only with that particle unmixed), exchange invariance for one pair (Props/C01f), reduction to Spinless.helAmp (Props/C04c, with C04). Finding on the unchanged tree, not reported as a violation (3e-8 relative, below every tolerance of the property): a Python-float |q0|2 is rounded to float32 inside Bprime_q2 - fixes/C01-fix_q0_float64.diff (one line, baseline tests green), fixes/C01-repro_q0_float32.py; the model's rounding flag follows the observed behaviour of the real Bprime_q2. get_swap_factor: Model/Swap.lean, legacy and repaired variants, the harness observes which one the tree has. Wigner rotation (Props/C01g.lean, Proofs/LorentzSL.lean, templates/LorentzSL.lean.in): proved on the model of cal_chain_boost / cal_helicity_angle for every SL(2,C) element; tied to the code by harness/c01_wigner.py (every rest_p of the real cal_chain_boost on an event and on its image: p' = R p with the R the theorem predicts, 1e-9, measured 1e-12; restM vs the real rest_vector 2e-16; below-top angles and pulled-back-axes angles 1e-11). Base axes (Props/C01h.lean, Proofs/AxesInd.lean, Proofs/AxesIndVertex.lean): proved on the model — Euler-angle composition at the top vertex with one common SU(2) element for all chains, the resulting left/right multiplication of the top D-function, and that the next-level azimuths are lowered by the same gamma while nothing else below the top vertex depends on the base axes; tied to the code by harness/c01_axes.py (real cal_helicity_angle at two explicit random choices of base_z/base_x per event: top angles vs the Lean angle_zx_z_getx at the same axes, r' U r^-1 diagonal, level-2 azimuth shift = gamma, deeper angles equal, real D_matrix_conj composition with the real get_euler_angle of mirror(U) for 2j = 1..4; all 1e-9, measured 2e-15). Props/C01i.lean + Proofs/AxesIndB.lean (builder C01I): surjectivity SU(2) -> SO(3) for frames is PROVED (frame_change_exists, axes_pair_exists: FrameChange / AxesPair are no longer hypotheses; the *_any_axes theorems and density_axes_independent_any_axes_partial assume the code's guards and hB only), and the vertex-level half of hB is proved on SU(2) elements (DConj_of_element, vertex_phase_element, vertex_phase_other_sheet with the fermion sign (-1)^(2j), mkD_vertex_phase, mkD_top_gamma, top_and_vertex_phases_cancel); harness/c01_axes.py compares on every run the SU(2) element built as in frame_lift with an independent scipy lift (equal up to sign) and the REAL level-2 D_matrix_conj rows with (+-1)^(2j) exp(-i m gamma) times the rows at the first axes (2j = 1..4; both sheets occur and are counted). Further in Props/C01i.lean (Proofs/AxesIndBRoute, AxesIndBSteps, AxesIndBD, AxesIndBGauge, AxesIndBMkD): route_axes_change (the r_matrix relation that was validated only is now a theorem about the model's step record, any depth), the alignment D-function under a change of axes, and the assembly theorems on the executable amplitude model whose only open hypothesis is hcancel (the product of the proved row/column phases is one common unit-modulus number); Props/C01j.lean + Proofs/AxesIndCPair, AxesIndCPhase, AxesIndCGauge (builder C01J): hcancel is PROVED for chains with the index structure of a decay tree with spinOK (chain_phases_cancel; tree_phases_cancel / sign_rule by structural induction) and the assembly theorem model_density_axes_independent_tree_partial has hypotheses on SU(2) elements only; tied to the code on every run by harness/c01_axes.py - the REAL cal_helicity_angle at two explicit choices of axes gives Rotation_z(gamma_1) Rotation_z(gamma_2) = +1 (not only +-1; measured 3e-15), alpha_2 = alpha_1 - pi and beta_2 = pi - beta_1 at every vertex of every chain (8e-15), and the sign of r_matrix' U r_matrix^-1 of every deeper final particle equals the sheet (-1)^turns of the level-2 azimuth on its route (both sheets occur; 1e-15) - and by harness/c01_spin.py: every decay of every generated card satisfies spinOK, all chains of a group have the same finals, and the real HelicityDecay.get_ls_list() is empty for all spin triples with 2(j_a+j_b+j_c) odd (2j <= 4 quick / 6 thorough) and non-empty otherwise (p_break). Validated, not proved (= what is left of AxesIndependent): the simultaneous instantiation of the element hypotheses for all chains of a DecayGroup from the cascade model (ids <-> tree positions), i.e. of the former link hB: the index structure of DecayChain.get_amp that turns the common lowering of the next-level azimuths by gamma_k, together with the change r_matrix' U = Rotation_z(gamma) r_matrix (direct daughters of the top) / +- r_matrix (deeper) of the alignment elements, into one common unitary on the final helicities — for half-integer spins including the 4 pi bookkeeping of gamma_k (fermion-number parity at every vertex). Both are checked on the real code on every run by harness/c01_axes.py: the r_matrix relation for every final particle of every chain, and the DENSITY of the real amplitude model evaluated through the library's own pipeline with cal_helicity_angle forced to two different explicit choices of base axes (agreement 2e-15). correspond = invariance of masses, |q|^2 and polar helicity angles of the real data dictionary; search = the metamorphic property on the real density. Events where an alignment beta of a spinning final particle is 0 or pi are compared with 1e-5 (acos noise of get_euler_angle). Known findings on the unchanged tree (reported through search with stable keys frame:<transformation>:<class>): identical_particles declared together with any spinning final particle (the exchanged pass uses other spin frames: O(1) frame dependence), three identical fermions (get_swap_factor is not the permutation sign), align_ref=center_mass with events not in the centre-of-mass frame (lab momenta used for the reference frames); patches fixes/fix_C01_alignment_reference.diff and fixes/fix_C01_swap_factor_permutation_sign.diff make all of them vanish.",
+    "text": "Lean theorems (all finite helicity index sets, all complex chain tensors, all real angles): mixing the parent and final-state helicity indices of EVERY chain with the same unitary matrices leaves the helicity-summed density unchanged and it is non-negative; the code's conjugated D-matrix exp(i m alpha) d^j_{mn}(beta) exp(i n gamma) (dfun.D_matrix_conj) built from the exact small-d table model is a unitary matrix for every 2j <= 8 and all real angles, hence a common rotation acting by D^J on the parent index leaves the density unchanged (density_rot_invariant); every invariant mass of every subsystem and every break-up momentum is unchanged by a common boost (regular branch) or rotation/reflection; d^j_{-m,-n} = (-1)^{m-n} d^j_{mn} for 2j <= 8 (kernel-checked polynomial identity, all real beta); for a three-body decay in the parent rest frame spatial inversion equals the rotation by pi about the decay-plane normal; the identical-particle sum over a finite group with a sign character is an eigenvector of every exchange so its helicity-summed square is exchange invariant; the repaired get_swap_factor is the permutation sign for up to four identical fermions, the unrepaired one is refuted on a 3-cycle. On the Lean model of cal_chain_boost/cal_helicity_angle (every binary decay tree, regular branch of cross_unit) a common rotation leaves every mass and every angle below the top vertex unchanged, and every angle when the base axes co-rotate; with fixed laboratory axes the first D-matrix of every chain is left-multiplied by one common D^J(R) whenever the top-vertex rotations compose in SU(2) (D_hom_su2), which gives invariance of the density from two named hypotheses (density_rot_fixed_axes_partial). Boosts (Props/C01g.lean): for EVERY element A of SL(2,C) acting as the common Lorentz transformation (proved orthochronous), every binary decay tree and all final momenta with a massive total momentum on the code's own boost branch (|beta|^2 > 1e-14 or exactly at rest, before and after): LorentzVector.rest_vector(P, .) is the SL(2,C) element restM P = r^-1 Boost_z(omega(P)) r built from the code's SU2M matrices (rest_vector_is_restM); the parent-rest-frame momenta computed from the transformed event are R times those of the event for ONE proper rotation R, the image of the SU(2) element W = restM(LP) A restM(P)^-1 (wigner_rotation, wigner_rotation_at_rest); the whole tree of nested rest-frame momenta of cal_chain_boost is rotated by R (rest_frames_rotate); every mass (lorentz_invariants_sl2c: any subsystem, no guard), every polar angle below the top vertex, every azimuth two or more levels below the top and every rapidity are unchanged for arbitrary base axes before and after (below_top_invariant_boost, rapidities_boost_invariant); the top-vertex angles are the angles of R n (top_vertex_boost) and the complete angle tree of the transformed event with base axes (z', x') equals that of the event itself with base axes (R^-1 z', R^-1 x') (boost_is_axes_change); hence any function of the per-chain data of cal_angle (angle trees, masses, rapidities) that does not depend on the base axes of a fixed event (named hypothesis AxesIndependent) is invariant under every Lorentz transformation (density_boost_invariant_partial in C01g; the older C01.density_boost_invariant_partial keeps the abstract unitary-mixing form). What is still not proved is AxesIndependent for the real density (Euler-angle composition at the top vertex and the induced common rotation of the alignment elements - no boost is left in it); it and the full statement are validated on the implementation: density finite, >= 0 and unchanged (1e-8) under per-event random rotations, boosts up to beta = 0.99, axis-aligned and tiny boosts, rotation-boost-rotation, spatial inversion (3-body / parity-conserving), identical-particle exchange, over hand-designed and seeded random decay cards built by ConfigLoader(dict). Amplitude tensor (Props/C01d, about the real-number instance of the executable model templates/Amp.lean.in of amp/core.py, whose Float instance is compared with the real DecayChain.get_amp / DecayGroup.get_amp / DecayGroup.get_amp3 tensors per helicity component and with sum_amp on every run, including cards with identical fermions / identical vector bosons (id_swap terms), a charge-conjugate pair (cp_swap term) and charge -1 events with allow_cc): for every chain (any depth, any spins, any couplings and line-shape values) and all top-vertex angles the model amplitude equals sum_mu D^{J*}_{lambda_A mu}(alpha,beta,gamma) T[mu, finals] with D the unitary matrix DConj of the exact small-d tables and a remainder T independent of lambda_A and of the top angles (amp_is_chain_tensor); for every list of chains, if the top-vertex D-matrix of every chain is left-multiplied by one common unitary (D^J(R) whenever the top-vertex rotations compose with R in SU(2); composed angles always exist) the helicity-summed density of the model is unchanged (model_density_top_mix, model_density_top_unitary, model_density_top_rot_invariant; 2j <= 8 for the top particle); for every list of chains, if for every final particle p of a list M the alignment D-function of EVERY chain is right-multiplied by one common unitary V_p and the other alignment D-functions are unchanged, the density of the model is unchanged (model_density_final_mix: no bound on the spins, final index lists = full helicity ranges, every chain aligned exactly once for p), together with one common unitary on the top index (model_density_mix_all), and with hypotheses about ANGLES: one rotation composed in SU(2) onto the top angles of every chain from the left and one rotation per final particle composed onto its alignment angles in every chain from the right, all spins 2j <= 8 (model_density_rot_invariant, Props/C01e: the full statement; composed angles always exist); identical particles (Props/C01f): the model of get_amp2 on the exchanged event is epsilon times the model of get_amp2 on the event with the two helicity indices transposed (amp2_exchange_covariant), hence the symmetrised model density sum_amp is the same on the event and on the exchanged event for every list of chains, epsilon = +-1, every helicity list of the pair and arbitrary other finals (model_exchange_invariant; the nested helicity sums are re-indexed by sumOverR_swap); the chain amplitude is linear in `total` and in the helicity couplings of the top vertex, the helicity coupling is sum_ls g_ls bf_ls cg[ls][lambda_b][lambda_c] (linear in g_ls), the group amplitude is the sum over chains, and the model density is >= 0. Base axes (Props/C01h.lean, model = templates/Cascade.lean.in + Angle.lean.in + the SU2M matrices): for ONE event (the output of cal_chain_boost for every binary decay tree, all momenta) and ANY two admissible choices of base axes (z, x), (z', x') (arbitrary vectors passing the code's cross_unit guards) whose orthonormal top frames are related by an SU(2) element U (FrameChange: coords' = lor U coords): for BOTH daughters of the top vertex the passive vertex rotations r = Rotation_y(beta) Rotation_z(alpha) built from the angles angle_zx_z_getx extracts (with the code's alpha range shifts) satisfy r' U = Rotation_z(gamma) r EXACTLY in SU(2) with one real gamma per daughter (top_angles_compose; from su2_fix_z: the SU(2) stabiliser of a momentum along z is {Rotation_z}); in active form Rz(alpha')Ry(beta')Rz(0) = mirror(U) Rz(alpha)Ry(beta)Rz(gamma) with the SAME mirror(U) for every chain (top_angles_compose_active), hence for 2j <= 8 the top D-function of every chain is D(alpha',beta',0) = D(euler(mirror U)) D(alpha,beta,0) diag(exp(i l gamma)) (top_D_compose, via D_hom_su2 and euler_roundtrip); the complete angle tree below the top vertex computed with (z', x') differs from the one computed with (z, x) ONLY by a lowering of the two azimuths of the daughter's own vertex by that same gamma (mod 2 pi): all masses, all polar angles, everything two or more levels down literally equal (below_top_azimuth_shift / AzShift, hypotheses = the code's guards only); density_axes_independent_partial / density_axes_independent_model_partial: C01b.density_rot_fixed_axes_partial with its link hcomp DISCHARGED for the angles of the model (any number of chains, parent spin 2j <= 8), remaining named link hB (the remainder of chain k changes by the phase exp(-i l gamma_k) up to a common unitary on the final helicities). Props/C01i.lean: for ALL pairs of right-handed orthonormal frames there is U in SU(2) with FrameChange U F F' (frame_change_exists; frame_is_su2: the coordinates along any frame are the Lorentz map of an element Rotation_z Rotation_y Rotation_z), so for ALL base axes passing the code's two cross_unit guards AxesPair holds for some U (axes_pair_exists) and the statements above hold with hypotheses on the guards only and ONE U for all chains and events sharing the axes (top_angles_compose_any_axes, top_D_compose_any_axes, below_top_azimuth_shift_any_axes, density_axes_independent_any_axes_partial: only hB left); for all spins 2j <= 8 and all angles the D-matrix depends on the Euler angles only through the SU(2) element (DConj_zero, DConj_of_element), a vertex whose azimuth ELEMENT is Rotation_z(a) Rotation_z(-gamma) has row m of its D-function multiplied by exp(-i m gamma) and on the other sheet of the double cover by (-1)^(2j) exp(-i m gamma) (vertex_phase_element, vertex_phase_other_sheet; mkD_vertex_phase, mkD_top_gamma on the executable get_D_matrix_lambda model incl. padding zeros), and for every helicity configuration at the top vertex the column phase of the top D-function times the row phases of the two daughters' D-functions is one (top_and_vertex_phases_cancel); D_matrix_conj is a unitary representation of SU(2) ELEMENTS for 2j <= 8 (D_is_representation); for every event, every decay tree of any depth and every decay path the route matrix b_matrix[f] r_matrix[f] of the model of cal_helicity_angle satisfies M' U = W M with W = Rotation_z(gamma) (direct daughter of the top, gamma of its vertex equation) or W = +-1 (deeper) (route_axes_change, RouteW), so the alignment element becomes W_ref R W_k^-1 (alignment_element_change) and its D-function changes by codeD(W_k^-1) on the row and codeD(W_ref) on the column index (aligned_D_axes_change, alignment_axes_change_model, row_factor_of_routeW); assembly on the executable amplitude model for ANY list of chains (any topology / depth, reference chains included): one unitary on the top rows, a column factor on the top D-function, row factors on the lower vertices, row and column factors on the alignment D-functions whose product is ONE unit-modulus number Xi(ext) common to all chains on every helicity configuration the einsum visits (hcancel) leave the density sum_amp unchanged (model_density_axes_independent_ext_partial / _partial / _stored_partial), also with hypotheses on SU(2) elements only and D-functions = mkD at the primed angles, 2j <= 8 (model_density_axes_independent_elements_ext_partial / _elements_partial; vertex_element_of_shift). Props/C01j.lean (builder C01J) DISCHARGES hcancel: (a) on the model of cal_helicity_angle, at EVERY vertex whose daughters are back to back (momentum conservation in the mother's rest frame) the stored angles of outs[1] are (alpha_1 - pi, pi - beta_1) as REAL numbers, not mod 2 pi - the role of the range-shift biases -pi / -2pi (vertex_second_daughter_exact, top_second_daughter_exact; hypotheses = the code's guards) - hence for ALL gamma_1, gamma_2 solving the two vertex equations of the top vertex Rotation_z(gamma_2) = Rotation_z(-gamma_1) and Rotation_z(gamma_1) Rotation_z(gamma_2) = 1 EXACTLY in SU(2), no sign (top_gammas_opposite), and at a lower vertex both daughters' azimuth elements are lowered on the SAME sheet, which is the sign +-1 of the route matrices of ALL final particles below it (sheet_exists, second_daughter_same_sheet, lower_vertex_sheet, routes_carry_vertex_sheet: M' U = (signM e) M with e the sheet of the vertex's own D-function - route_axes_change with the sign identified); (b) CTree.spinOK (decidable: 2j_core = 2j_b + 2j_c mod 2 at every vertex of a decay tree with ids and doubled spins), spin_sign_rule / fermion_sign_rule: (-1)^(2j_R) = product of (-1)^(2j_f) over the finals below R for EVERY tree (structural induction), loader_enforces_spinOK: a vertex with 2(j_a+j_b+j_c) odd has C13.lsList = [] (all parities / p_break / C settings, from ls_mem_iff); (c) chain_phases_cancel = hcancel PROVED for every AmpR.Chain whose index structure is that of a decay tree of ANY depth (ChainOfTree: lower vertices <-> decaying particles, alignment D-functions <-> aligned finals, contracted indices; mkChain builds such a chain from a tree, mkChain_shape): column phase of the top vertex x row phases of all lower vertices x row and column phases of all alignment D-functions = product over ALL final particles f of exp(i ext_f phi_f / 2) with Rotation_z(phi_f) the reference element of f - the reference chain's own vertex phase IS the other chains' alignment column phase; (d) model_density_axes_independent_tree_partial: the density AmpR.densityG of ANY list of such chains (reference chains included, 2j <= 8, D-functions = AmpR.mkD at the primed angles) equals the density at the first axes with NO hcancel hypothesis - the hypotheses left are relations between SU(2) ELEMENTS (vertex equation, Rotation_z(gamma_2) = Rotation_z(-gamma_1), SideOKE: -gamma on the side's sheet for the daughter's own vertex / unit below / -gamma for an aligned direct daughter / the sheet sign for deeper finals, href: own element = reference element in the reference chain), each of which is a theorem of C01h/C01i/C01j about the model of cal_helicity_angle. Two defects of the STATEMENT of hcancel in C01i (unsatisfiable for real chains, not wrong) are repaired: it was asked for configurations with |lambda_b - lambda_c| > J (padding zero of Dfun_delta_v2; colPhaseX continues the phase there) and for configurations h differing from the external helicities on the reference chain's own finals (AmpR.densityG_gauge_ext2 carries h = ext off the contracted indices). Props/C01k.lean (builder C01K): the element relations hold SIMULTANEOUSLY on the step record RouteRestR.stepTree of cal_helicity_angle for ONE event at two admissible choices of base axes, decay trees of ANY depth (the 3-body decay group is the special case): stshift_elements / side_elements - per daughter of the top particle ONE gamma and ONE sheet e serve the vertex equation, the azimuth element of the daughter's own vertex, the route matrices b_matrix.r_matrix of ALL final particles below it (through outs[0] and outs[1] of that vertex: alpha_2 = alpha_1 - pi exactly from back-to-back daughters, side_bb), and every deeper vertex is literally unchanged; chain_elements / chain_rel - per chain gamma_1, gamma_2, e_1, e_2 with htop, Rotation_z(gamma_2) = Rotation_z(-gamma_1), M' U = chainW(path) M for the route of EVERY final particle, W = Rotation_z(chainAngle path) (chainW_is_rotZ: gamma, 0 or 2 pi); alignment_hal - the Euler angles get_euler_angle(M_ref M_k^-1) satisfy exactly the hypothesis hal of C01j with Rotation_z(theta_a) = W_k^-1, Rotation_z(phi) = W_ref; href_of_own_route; sideOKE_of_paths - SideOKE of C01j for a side with a decay tree of any depth from the decay paths of its ids; axes_independent_cascade_partial - C01j.model_density_axes_independent_tree_partial with ALL element hypotheses (htop, h-gamma, hvert, hal, hSb, hSc, href) DISCHARGED: for any list of chains with ChainOfTree structure and the same finals, the momenta (p, T1, T2, g) of each chain passing the code's Guards at both choices of axes with back-to-back daughters at the top vertex and at the vertices of its two daughters (SideBB), D-functions = AmpR.mkD at the angles of the step record (top D(alpha_1, beta_1, 0), lower vertices D(alpha_1, beta_1, 0), alignment D(*get_euler_angle(M_ref M_k^-1))): densityG at the second axes = densityWith at the first. axes_independent_event_partial - the same for ONE event given, per chain, as the tree of final momenta in the input frame (calChainBoost), same total momentum and same final momenta by id for all chains: the id <-> decay-path tables are BUILT from the trees (fpathOf / vpathOf, correct for pairwise different ids), the routes and vertex steps are READ OFF the step record (routeOf / vtxOf), and hR (alignment elements in SU(2)) is PROVED from C02e.route_to_rest_of_cascade + C02d.alignR_isSU2; axes_independent_3body_partial - the 3-body decay group (Is3Body: resonance on either side; ResBB: back-to-back daughters of the resonance). Hypotheses of axes_independent_event_partial: the code's Guards of every chain at both choices of axes, back-to-back daughters at the top vertex and at the two level-2 vertices in the frames the code computes (hbb, SideBB), ChainOfTree incl. spinOK, pairwise different ids, decaying ids at decaying nodes, a chain that does not align f is the reference chain of f, lower-vertex D-functions = get_D_matrix_lambda(alpha_1, beta_1, 0) of the step record (hvD); decay trees of any depth, 2j <= 8; joint non-vacuity examples. axes_independent_event_guards_partial - hbb / SideBB DERIVED from momentum conservation in the input frame (rest_self: rest_vector(P, P) = (m, 0, 0, 0) on the code's boost branches; bb_of_sum: the daughters of R = a + b are back to back in rest_vector(R, .), rest_vector being linear; sideBB_of_guards), so the hypotheses on momenta are GUARDS only: Guards of every chain at both choices of axes, total momentum massive and |beta|^2 > 1e-14 or exactly at rest, |vect r| >= 1e-14 for a decaying daughter of the top particle. Missing for FULL, named: the boost clause density_boost_invariant (needs AmpR.density of chains built from the angle trees as the F of C01g.AxesIndependent) and the construction of the chain list (C01j.mkChain, hvD, reference convention) from a DecayGroup.",
+    "note": "Executable Lean model of the amplitude tensor: templates/Amp.lean.in (general binary chains and spins; CG matrix, barrier factors, helicity couplings, D_matrix_conj + Dfun_delta_v2 gather, BWR/BW/one propagators, alignment D-functions, einsum over inner helicities, sum over chains, helicity-summed density; default decay options; identical-particle and cp terms, allow_cc), fed with the masses, |q|2, ang and aligned_angle of the real data dictionary and the parameter values of the real model objects (harness/c01_amp.py: 6 decay cards, spins 0..2, parity conserving and violating vertices, 2-3 interfering chains of different topology, 3- and 4-body, BWR/BW/one; agreement 1e-15, tolerance 1e-9 of the largest component). get_amp2 / get_amp3 / the allow_cc branch are in the model (groupAmp2, groupAmp3, density3, mkHrev) and compared on 4 more cards (harness/c01_amp.py correspond_amp3; exchanges of pairs only). Proved on the model since the last revision: unitary mixing of the FINAL-state indices through the alignment D-functions (Props/C01e; the reference chain of a particle, which has no alignment D-function, only with that particle unmixed), exchange invariance for one pair (Props/C01f), reduction to Spinless.helAmp (Props/C04c, with C04). Finding on the unchanged tree, not reported as a violation (3e-8 relative, below every tolerance of the property): a Python-float |q0|2 is rounded to float32 inside Bprime_q2 - fixes/C01-fix_q0_float64.diff (one line, baseline tests green), fixes/C01-repro_q0_float32.py; the model's rounding flag follows the observed behaviour of the real Bprime_q2. get_swap_factor: Model/Swap.lean, legacy and repaired variants, the harness observes which one the tree has. Wigner rotation (Props/C01g.lean, Proofs/LorentzSL.lean, templates/LorentzSL.lean.in): proved on the model of cal_chain_boost / cal_helicity_angle for every SL(2,C) element; tied to the code by harness/c01_wigner.py (every rest_p of the real cal_chain_boost on an event and on its image: p' = R p with the R the theorem predicts, 1e-9, measured 1e-12; restM vs the real rest_vector 2e-16; below-top angles and pulled-back-axes angles 1e-11). Base axes (Props/C01h.lean, Proofs/AxesInd.lean, Proofs/AxesIndVertex.lean): proved on the model — Euler-angle composition at the top vertex with one common SU(2) element for all chains, the resulting left/right multiplication of the top D-function, and that the next-level azimuths are lowered by the same gamma while nothing else below the top vertex depends on the base axes; tied to the code by harness/c01_axes.py (real cal_helicity_angle at two explicit random choices of base_z/base_x per event: top angles vs the Lean angle_zx_z_getx at the same axes, r' U r^-1 diagonal, level-2 azimuth shift = gamma, deeper angles equal, real D_matrix_conj composition with the real get_euler_angle of mirror(U) for 2j = 1..4; all 1e-9, measured 2e-15). Props/C01i.lean + Proofs/AxesIndB.lean (builder C01I): surjectivity SU(2) -> SO(3) for frames is PROVED (frame_change_exists, axes_pair_exists: FrameChange / AxesPair are no longer hypotheses; the *_any_axes theorems and density_axes_independent_any_axes_partial assume the code's guards and hB only), and the vertex-level half of hB is proved on SU(2) elements (DConj_of_element, vertex_phase_element, vertex_phase_other_sheet with the fermion sign (-1)^(2j), mkD_vertex_phase, mkD_top_gamma, top_and_vertex_phases_cancel); harness/c01_axes.py compares on every run the SU(2) element built as in frame_lift with an independent scipy lift (equal up to sign) and the REAL level-2 D_matrix_conj rows with (+-1)^(2j) exp(-i m gamma) times the rows at the first axes (2j = 1..4; both sheets occur and are counted). Further in Props/C01i.lean (Proofs/AxesIndBRoute, AxesIndBSteps, AxesIndBD, AxesIndBGauge, AxesIndBMkD): route_axes_change (the r_matrix relation that was validated only is now a theorem about the model's step record, any depth), the alignment D-function under a change of axes, and the assembly theorems on the executable amplitude model whose only open hypothesis is hcancel (the product of the proved row/column phases is one common unit-modulus number); Props/C01j.lean + Proofs/AxesIndCPair, AxesIndCPhase, AxesIndCGauge (builder C01J): hcancel is PROVED for chains with the index structure of a decay tree with spinOK (chain_phases_cancel; tree_phases_cancel / sign_rule by structural induction) and the assembly theorem model_density_axes_independent_tree_partial has hypotheses on SU(2) elements only; tied to the code on every run by harness/c01_axes.py - the REAL cal_helicity_angle at two explicit choices of axes gives Rotation_z(gamma_1) Rotation_z(gamma_2) = +1 (not only +-1; measured 3e-15), alpha_2 = alpha_1 - pi and beta_2 = pi - beta_1 at every vertex of every chain (8e-15), and the sign of r_matrix' U r_matrix^-1 of every deeper final particle equals the sheet (-1)^turns of the level-2 azimuth on its route (both sheets occur; 1e-15) - and by harness/c01_spin.py: every decay of every generated card satisfies spinOK, all chains of a group have the same finals, and the real HelicityDecay.get_ls_list() is empty for all spin triples with 2(j_a+j_b+j_c) odd (2j <= 4 quick / 6 thorough) and non-empty otherwise (p_break). Proved since the last revision (Props/C01k.lean): the simultaneous instantiation of the element hypotheses on the step record of the cascade model for chains of any depth (axes_independent_cascade_partial). Validated, not proved (= what is left of AxesIndependent): the construction of the AmpR chain list of a DecayGroup with the hypotheses of axes_independent_event_partial (ChainOfTree, hvD, reference convention), the boost clause for the real pipeline; i.e. what is left of the former link hB: the index structure of DecayChain.get_amp that turns the common lowering of the next-level azimuths by gamma_k, together with the change r_matrix' U = Rotation_z(gamma) r_matrix (direct daughters of the top) / +- r_matrix (deeper) of the alignment elements, into one common unitary on the final helicities — for half-integer spins including the 4 pi bookkeeping of gamma_k (fermion-number parity at every vertex). Both are checked on the real code on every run by harness/c01_axes.py: the r_matrix relation for every final particle of every chain, and the DENSITY of the real amplitude model evaluated through the library's own pipeline with cal_helicity_angle forced to two different explicit choices of base axes (agreement 2e-15). correspond = invariance of masses, |q|^2 and polar helicity angles of the real data dictionary; search = the metamorphic property on the real density. Events where an alignment beta of a spinning final particle is 0 or pi are compared with 1e-5 (acos noise of get_euler_angle). Known findings on the unchanged tree (reported through search with stable keys frame:<transformation>:<class>): identical_particles declared together with any spinning final particle (the exchanged pass uses other spin frames: O(1) frame dependence), three identical fermions (get_swap_factor is not the permutation sign), align_ref=center_mass with events not in the centre-of-mass frame (lab momenta used for the reference frames); patches fixes/fix_C01_alignment_reference.diff and fixes/fix_C01_swap_factor_permutation_sign.diff make all of them vanish.",
     "technique": "Lean 4 proof of the algebraic skeleton (Mathlib matrices over C, kernel-decided polynomial identities), of theorems about an executable model of the amplitude tensor tied to amp/core.py by a per-helicity-component differential check, and of SU(2)/SL(2,C) theorems about the model of cal_angle (Wigner rotation, change of base axes) tied to the code by differential checks at explicit transformations / base axes + metamorphic search on the implementation",
 }
